@@ -79,6 +79,9 @@ pub struct BuildSpec {
     /// `grammar_path` / `lexer_path` taken relative to `<crate directory>/src`, as a build.rs does
     #[serde(default)]
     pub src_dir_mode: Option<(String, String)>,
+    /// working directory of the build process (all paths in the spec are absolute)
+    #[serde(default)]
+    pub cwd: Option<String>,
 }
 
 #[derive(Serialize, Deserialize, Clone, Debug, Default)]
@@ -168,6 +171,10 @@ pub fn main(spec_path: &str, result_path: &str) -> i32 {
         }
     }
     std::panic::set_hook(Box::new(|_| {}));
+    if let Some(d) = &spec.cwd {
+        let _ = std::fs::create_dir_all(d);
+        let _ = std::env::set_current_dir(d);
+    }
     // a build script always runs with OUT_DIR set
     if let Some(d) = &spec.token_map_dir {
         std::env::set_var("OUT_DIR", d);
